@@ -577,7 +577,15 @@ func (x *e2Ctx) callOps(cl *ssa.Call) []*e2Node {
 			f, xf := "const:0", ""
 			for _, ref := range *cl.Referrers() {
 				if cp, ok := ref.(*ssa.Call); ok && isBuiltinCall(cp.Common(), "copy") && cp.Call.Args[0] == ssa.Value(cl) {
-					_, f, xf = x.bytesSrc(cp.Call.Args[1])
+					var wsrc string
+					wsrc, f, xf = x.bytesSrc(cp.Call.Args[1])
+					// copy(buf.Append(len(src)), src) is WriteBytes(src): exactly the source, nothing padded
+					if lo := lenOperand(cc.Args[1]); lo != nil {
+						src := stripBytesConv(cp.Call.Args[1])
+						if lo == src || x.c.Sx().Of(lo).String() == x.c.Sx().Of(src).String() {
+							return []*e2Node{{kind: "slot", w: wsrc, f: f, x: xf, pos: pos}}
+						}
+					}
 					xf += "pad"
 				}
 			}
@@ -828,7 +836,8 @@ func (x *e2Ctx) pathOf(v ssa.Value, d int) string {
 				for _, ref := range *v.Referrers() {
 					switch u := ref.(type) {
 					case *ssa.Slice:
-						if _, constHigh := u.High.(*ssa.Const); u.X == v && u.Low == nil && (u.High == nil || (constHigh && dd == 0)) {
+						// whole, the compiler's own [:n], or a prefix cut that is what gets stored (chaddr[:hlen])
+						if u.X == v && u.Low == nil {
 							if h := home(u, dd+1); h != "" {
 								return h
 							}
@@ -1920,6 +1929,12 @@ func (x *e2Ctx) noLexer(f *ssa.Function, enc bool) []*e2Node {
 		x.undecided("decoder without Lexer and without []byte parameter in " + shortName(f))
 		return nil
 	}
+	// the reads may live in an unexported helper that receives the whole parameter and builds the Lexer itself
+	// (b, err := copyIPv4(data); *i = IP(b); return err): the helper's schema, with what leaves it through its k-th
+	// result continued in this function, and the error it returns classified inside the helper
+	if ns, ok := x.bytesHelper(f, prm); ok {
+		return ns
+	}
 	fld, xf := x.dstOf(prm)
 	w := "rest"
 	// exact-length guard
@@ -2142,4 +2157,97 @@ func (x *e2Ctx) flagsOf(p *ssa.Phi) string {
 	}
 	sort.Ints(ms)
 	return fmt.Sprintf("{%s}:%v", strings.Join(cs, ","), ms)
+}
+
+// stripBytesConv: x for []byte(x) / string(x) conversions, else v
+func stripBytesConv(v ssa.Value) ssa.Value {
+	for i := 0; i < 3; i++ {
+		switch t := v.(type) {
+		case *ssa.Convert:
+			v = t.X
+			continue
+		case *ssa.ChangeType:
+			v = t.X
+			continue
+		}
+		break
+	}
+	return v
+}
+
+// bytesHelper: see noLexer. Recognised: exactly one call of an unexported module function h with the decoder's own
+// []byte parameter as an argument; h constructs one Lexer over that parameter; the decoder returns, as its error, the
+// error result of that call (on every path that is not a definite failure).
+func (x *e2Ctx) bytesHelper(f *ssa.Function, prm *ssa.Parameter) ([]*e2Node, bool) {
+	if x.depth > 0 {
+		return nil, false
+	}
+	var call *ssa.Call
+	nCalls := 0
+	argIdx := -1
+	allInstrs(f, func(in ssa.Instruction) {
+		cl, ok := in.(*ssa.Call)
+		if !ok {
+			return
+		}
+		h := cl.Call.StaticCallee()
+		if h == nil || !inModule(h) || h.Blocks == nil || token.IsExported(h.Name()) || h.Signature.Recv() != nil {
+			return
+		}
+		for i, a := range cl.Call.Args {
+			if a == ssa.Value(prm) {
+				call, argIdx = cl, i
+				nCalls++
+			}
+		}
+	})
+	if nCalls != 1 || call == nil {
+		return nil, false
+	}
+	h := call.Call.StaticCallee()
+	nres := h.Signature.Results().Len()
+	if nres == 0 || !isErrorType(h.Signature.Results().At(nres-1).Type()) {
+		return nil, false
+	}
+	sub := &e2Ctx{c: x.c, fn: h, lex: map[ssa.Value]bool{}, enc: false, depth: 1, subst: map[string]string{}, visited: map[*ssa.BasicBlock]int{}}
+	sub.ipdom = postDominators(h)
+	nLex := 0
+	allInstrs(h, func(in ssa.Instruction) {
+		if cl, ok := in.(*ssa.Call); ok {
+			if sf := cl.Call.StaticCallee(); sf != nil && inUio(sf) && strings.HasPrefix(sf.Name(), "New") && strings.HasSuffix(sf.Name(), "Buffer") {
+				if len(cl.Call.Args) >= 1 && cl.Call.Args[0] == ssa.Value(h.Params[argIdx]) {
+					sub.lex[cl] = true
+					nLex++
+				}
+			}
+		}
+	})
+	if nLex != 1 {
+		return nil, false
+	}
+	// the decoder's own error results: the helper's error, or a definite failure
+	var errv ssa.Value = call
+	if nres > 1 {
+		ex := extractOf(call, nres-1)
+		if ex == nil {
+			return nil, false
+		}
+		errv = ex
+	}
+	for _, r := range returnsOf(f) {
+		if len(r.Results) == 0 {
+			return nil, false
+		}
+		ev := r.Results[len(r.Results)-1]
+		if ev != errv && !definitelyError(ev, r) {
+			return nil, false
+		}
+	}
+	ns := sub.walk(h.Blocks[0], nil)
+	sub.resolveLocals(ns)
+	x.undec = append(x.undec, sub.undec...)
+	ns = e2Simplify(ns)
+	x.bindReturns(ns, call)
+	e2Canon(ns)
+	return ns, true
 }
